@@ -22,6 +22,7 @@ RULE = (
 )
 ASSUMPTIONS = [
     "numpy's own indexing of an object ndarray is the reference semantics",
+    "a quarter of the series are defined recursively (eval indexes its own series: right neighbour, previous order, other row), as the library's generated evals do",
     "grammar: int | list[int] | slice(start, stop, step>=1); booleans, None, Ellipsis and negative steps are outside the stated domain",
     "for infinite dimensions a negative integer / list entry / slice bound or an open-ended slice must raise IndexError (property text)",
 ]
@@ -69,11 +70,14 @@ def plan(tier, seed):
     n = BUDGET[tier]["cases"]
     n_rand = n if tier == "quick" else n - 6000
     for i in range(n_rand):
-        kind = ["index", "index", "index", "view", "bad", "selfref"][i % 6]
+        kind = ["index", "index", "recursive", "view", "bad", "selfref", "index", "recursive"][i % 8]
         shape = [int(x) for x in rng.integers(1, 4, size=int(rng.integers(0, 4)))]
         n_inf = int(rng.integers(0, 3))
         if kind in ("view", "bad", "selfref") and n_inf == 0:
             n_inf = 1
+        if kind == "recursive":
+            shape = [int(x) for x in rng.integers(1, 4, size=2)]
+            n_inf = int(rng.integers(1, 3))
         if kind in ("view", "selfref") and not shape:
             shape = [2, 2]
         if not shape and not n_inf:
@@ -115,6 +119,59 @@ def _mk(shape, n_inf):
     dense = np.empty(box, dtype=object)
     for idx in itertools.product(*[range(b) for b in box]):
         dense[idx] = None if sum(idx) % 4 == 0 else ("v",) + idx
+    return S, dense, calls
+
+
+def _mk_recursive(shape, n_inf):
+    """A well-founded recursive definition: element (i, j, n...) is built from the element to its
+    right in the same row (later in C order), from the previous order and from a slice of the
+    same series - like the generated evals of the library, which index their own series."""
+    from pymablock.series import BlockSeries, zero
+
+    calls = Counter()
+    holder = {}
+
+    def key(x):
+        return 0 if x is None else x
+
+    def rule(get, idx):
+        i, j, *n = idx
+        if sum(idx) % 5 == 0:
+            return None
+        parts = []
+        if j + 1 < shape[1]:
+            parts.append(get((i, j + 1, *n)))
+        if n[0] > 0:
+            parts.append(get((i, j, n[0] - 1, *n[1:])))
+        if n[-1] > 1:
+            parts.append(get(((i + 1) % shape[0], j, *n[:-1], n[-1] - 2)))
+        return ("r", idx, tuple(parts))
+
+    def ev(*idx):
+        idx = tuple(int(v) for v in idx)
+        calls[idx] += 1
+        S = holder["S"]
+
+        def get(k):
+            v = S[k]
+            return None if v is zero else v
+
+        out = rule(get, idx)
+        return zero if out is None else out
+
+    S = BlockSeries(eval=ev, shape=tuple(shape), n_infinite=n_inf, name="R")
+    holder["S"] = S
+    box = tuple(shape) + (MAXO + 1,) * n_inf
+    dense = np.empty(box, dtype=object)
+    memo = {}
+
+    def ref(k):
+        if k not in memo:
+            memo[k] = rule(ref, k)
+        return memo[k]
+
+    for idx in itertools.product(*[range(b) for b in box]):
+        dense[idx] = ref(idx)
     return S, dense, calls
 
 
@@ -226,6 +283,15 @@ def run_case(spec):
                 raise Violation(f"S[{item}] (infinite or negative order) did not raise IndexError")
             kinds.append(tuple(a[0] for a in atoms))
         sample = dict(shape=shape, n_inf=n_inf, bad=str(item))
+    elif kind == "recursive":
+        S, dense, calls = _mk_recursive(shape, n_inf)
+        for rep in range(4):
+            atoms = [_atom(rng, d, True) for d in shape] + [_atom(rng, MAXO + 1, False) for _ in range(n_inf)]
+            item = tuple(_to_index(a) for a in atoms)
+            _compare(S, dense, item, counters, "recursive series")
+            kinds.append(("recursive",) + tuple(a[0] for a in atoms))
+            counters["recursive_expressions"] += 1
+        sample = dict(shape=shape, n_inf=n_inf, recursive=True, item=str(item))
     elif kind == "selfref":
         _selfref(rng, shape, n_inf, counters)
         kinds.append(("selfref", int(rng.integers(0, 50))))
@@ -327,7 +393,7 @@ def _chain(e):
 
 def finalize(c, tier, evaluations, distinct):
     reasons = []
-    need = dict(expressions=2000, views=200, bad_order_rejected=300, index_errors_agreed=20, masked_results=200,
+    need = dict(recursive_expressions=500, expressions=2000, views=200, bad_order_rejected=300, index_errors_agreed=20, masked_results=200,
                 selfref_mode0=10, selfref_mode1=10, selfref_mode2=10, selfref_mode3=10)
     for k, v in need.items():
         if c.get(k, 0) < v:
